@@ -1498,8 +1498,16 @@ func worklistLoop(prog *load.Program, info *types.Info, fd *ast.FuncDecl, fs *as
 		return ok && info.ObjectOf(id) == w
 	}
 	// the pop: among the leading statements of the body
+	unwrap := func(e ast.Expr) ast.Expr { // types.Unalias(x) names the same pending type
+		if call, ok := ast.Unparen(e).(*ast.CallExpr); ok && len(call.Args) == 1 {
+			if fn, _ := typeutil.Callee(info, call).(*types.Func); fn != nil && fn.FullName() == "go/types.Unalias" {
+				return call.Args[0]
+			}
+		}
+		return e
+	}
 	isLast := func(e ast.Expr) bool { // w[len(w)-1]
-		ix, ok := ast.Unparen(e).(*ast.IndexExpr)
+		ix, ok := ast.Unparen(unwrap(e)).(*ast.IndexExpr)
 		if !ok || !isW(ix.X) {
 			return false
 		}
@@ -1507,7 +1515,7 @@ func worklistLoop(prog *load.Program, info *types.Info, fd *ast.FuncDecl, fs *as
 		return ok && be.Op == token.SUB && isLenOf(be.X) == w && info.Types[be.Y].Value != nil && info.Types[be.Y].Value.String() == "1"
 	}
 	isFirst := func(e ast.Expr) bool { // w[0]
-		ix, ok := ast.Unparen(e).(*ast.IndexExpr)
+		ix, ok := ast.Unparen(unwrap(e)).(*ast.IndexExpr)
 		return ok && isW(ix.X) && isZero(ix.Index)
 	}
 	dropLast := func(e ast.Expr) bool { // w[:len(w)-1]
@@ -1954,4 +1962,154 @@ func callbackComponentsOf(info *types.Info, fd *ast.FuncDecl, fid *ast.Ident, ok
 		return true
 	})
 	return calls > 0 && calls == good && uses == calls
+}
+
+// descentLoop: `for { switch tt := t.(type) { case A: t = tt.Elem(); continue … }; …; return … }` — a
+// condition-less loop over a local or parameter t of an interface type whose body ends in return; every
+// `continue` of the loop sits in a clause of one type switch over t, and on the way to it t is assigned a
+// strict component of the clause's symbol (a chain of structural accessors) — in the same clause, as a
+// statement of the clause itself. t is written nowhere else in the loop. Terminates: t walks down a
+// finite type tree.
+func descentLoop(info *types.Info, fd *ast.FuncDecl, fs *ast.ForStmt) (bool, string) {
+	if fs.Cond != nil || fs.Post != nil || len(fs.Body.List) == 0 {
+		return false, ""
+	}
+	if _, ends := fs.Body.List[len(fs.Body.List)-1].(*ast.ReturnStmt); !ends {
+		return false, ""
+	}
+	// the one type switch, a statement of the body itself
+	var ts *ast.TypeSwitchStmt
+	for _, st := range fs.Body.List {
+		if x, ok := st.(*ast.TypeSwitchStmt); ok {
+			if ts != nil {
+				return false, ""
+			}
+			ts = x
+		}
+	}
+	if ts == nil {
+		return false, ""
+	}
+	var sw ast.Expr
+	switch a := ts.Assign.(type) {
+	case *ast.AssignStmt:
+		if ta, ok := ast.Unparen(a.Rhs[0]).(*ast.TypeAssertExpr); ok {
+			sw = ta.X
+		}
+	case *ast.ExprStmt:
+		if ta, ok := ast.Unparen(a.X).(*ast.TypeAssertExpr); ok {
+			sw = ta.X
+		}
+	}
+	tid, ok := ast.Unparen(sw).(*ast.Ident)
+	if !ok {
+		return false, ""
+	}
+	t := info.ObjectOf(tid)
+	// every continue of this loop sits directly in a clause of ts, after an assignment of t in that clause
+	okAll, nconts := true, 0
+	var scan func(n ast.Node, nested bool)
+	scan = func(n ast.Node, nested bool) {
+		ast.Inspect(n, func(x ast.Node) bool {
+			switch y := x.(type) {
+			case *ast.FuncLit:
+				return false
+			case *ast.ForStmt:
+				if y != fs {
+					scan(y.Body, true)
+					return false
+				}
+			case *ast.RangeStmt:
+				scan(y.Body, true)
+				return false
+			case *ast.BranchStmt:
+				if y.Tok == token.GOTO || (y.Tok == token.CONTINUE && (!nested || y.Label != nil)) {
+					nconts++
+					found := false
+					for _, c := range ts.Body.List {
+						cc := c.(*ast.CaseClause)
+						sym := info.Implicits[cc]
+						for i, st := range cc.Body {
+							if st != ast.Stmt(y) {
+								continue
+							}
+							// an earlier statement of the clause assigns t a strict component of the symbol
+							for _, prev := range cc.Body[:i] {
+								as, ok := prev.(*ast.AssignStmt)
+								if !ok || as.Tok != token.ASSIGN || len(as.Lhs) != len(as.Rhs) {
+									continue
+								}
+								for k, l := range as.Lhs {
+									if lid, ok := ast.Unparen(l).(*ast.Ident); ok && info.ObjectOf(lid) == t && sym != nil && accessorChainOn(info, as.Rhs[k], sym) {
+										found = true
+									}
+								}
+							}
+						}
+					}
+					if !found {
+						okAll = false
+					}
+				}
+			}
+			return true
+		})
+	}
+	scan(fs.Body, false)
+	if !okAll || nconts == 0 {
+		return false, ""
+	}
+	// t is written only by those assignments (each is in a clause of ts, as a statement of the clause)
+	ast.Inspect(fs.Body, func(n ast.Node) bool {
+		switch x := n.(type) {
+		case *ast.AssignStmt:
+			for k, l := range x.Lhs {
+				lid, ok := ast.Unparen(l).(*ast.Ident)
+				if !ok || info.ObjectOf(lid) != t {
+					continue
+				}
+				good := false
+				for _, c := range ts.Body.List {
+					cc := c.(*ast.CaseClause)
+					for _, st := range cc.Body {
+						if st == ast.Stmt(x) && len(x.Lhs) == len(x.Rhs) && info.Implicits[cc] != nil && accessorChainOn(info, x.Rhs[k], info.Implicits[cc]) {
+							good = true
+						}
+					}
+				}
+				if !good {
+					okAll = false
+				}
+			}
+		case *ast.UnaryExpr:
+			if id, ok := ast.Unparen(x.X).(*ast.Ident); ok && x.Op == token.AND && info.ObjectOf(id) == t {
+				okAll = false
+			}
+		}
+		return true
+	})
+	if !okAll {
+		return false, ""
+	}
+	return true, "descent loop: the body ends in return, and every way round assigns " + t.Name() + " a strict component of itself (types are finite trees)"
+}
+
+// accessorChainOn: e is sym.A().B()… with one structural accessor at least.
+func accessorChainOn(info *types.Info, e ast.Expr, sym types.Object) bool {
+	n := 0
+	for {
+		switch x := ast.Unparen(e).(type) {
+		case *ast.CallExpr:
+			sel, ok := ast.Unparen(x.Fun).(*ast.SelectorExpr)
+			if !ok || !structuralAccessors[sel.Sel.Name] || len(x.Args) > 1 {
+				return false
+			}
+			n++
+			e = sel.X
+		case *ast.Ident:
+			return n > 0 && info.ObjectOf(x) == sym
+		default:
+			return false
+		}
+	}
 }
